@@ -10,6 +10,8 @@ from .engine import Engine
 from .calls import CX, Out
 
 QUICK_TIMEOUT_MS = 10000
+import os as _os
+_PROGRESS = _os.environ.get('VERIF_PROGRESS') == '1'
 
 
 class ObResult:
@@ -277,6 +279,8 @@ def _run(eng, world, contracts, qual, res, timeout_ms, concretise, keep_smt, onl
             res.obligations.append(ObResult(ob.name, ob.kind, status, time.time() - t1, reason=note))
             continue
         r, dt, model, solver = solve(ob.hyps, ob.goal, timeout_ms)
+        if _PROGRESS:
+            print('  [%s] %.2fs %s' % (r, dt, ob.name), flush=True)
         if r == z3.unsat:
             res.obligations.append(ObResult(ob.name, ob.kind, 'proved', dt))
         elif r == z3.sat:
